@@ -123,6 +123,7 @@ type Ledger struct {
 	ck1, ck2  uint32 // checksum after the last committed frame
 	nFrames   int    // frames consumed up to and including the last commit frame
 	Generations int  // WAL generations seen
+	Gaps        int  // generation changes at which commits had been missed (resynchronised from the database file)
 	FramesInGen int  // valid frames (committed) in current generation
 }
 
@@ -249,6 +250,21 @@ func (l *Ledger) scan(tag string, quiet bool) (int, error) {
 		return 0, fmt.Errorf("ledger: wal page size %d != db page size %d", ps, l.PageSize)
 	}
 	if !bytes.Equal(hdr, l.walHdr) {
+		if !quiet && l.cur != nil {
+			// A new WAL generation starts only after the previous one was fully
+			// back-filled, so the database file now equals the state at the end of
+			// the previous generation. If that is not the ledger's current state,
+			// commits were made and checkpointed away between two observations
+			// (possible only for litestream's own bookkeeping commits inside one
+			// op of a node process): resynchronise from the file.
+			if img, err := os.ReadFile(l.DBPath); err == nil && len(img)%l.PageSize == 0 {
+				st := StateFromImage(img, l.PageSize)
+				if st.Hash() != l.cur.Hash() {
+					l.Gaps++
+					l.appendState(st, tag)
+				}
+			}
+		}
 		l.walHdr = hdr
 		l.bigEndCks = big
 		l.salt1 = binary.BigEndian.Uint32(hdr[16:])
@@ -367,7 +383,14 @@ func (l *Ledger) CrossCheck(scratch string) error {
 		return fmt.Errorf("crosscheck: %w", err)
 	}
 	if d := DiffImage(l.cur, img, l.PageSize); d != "" {
-		return fmt.Errorf("ledger state %d disagrees with SQLite recovery: %s", l.cur.Index, d)
+		fi, _ := os.Stat(l.WALPath)
+		var wsz int64 = -1
+		if fi != nil {
+			wsz = fi.Size()
+		}
+		live, _ := LiveWALFrames(l.WALPath, l.PageSize)
+		d += fmt.Sprintf(" [full decode sees %d valid frames]", live)
+		return fmt.Errorf("ledger state %d disagrees with SQLite recovery: %s (ledger: %d states, %d frames consumed in generation %d, wal size %d, page size %d)", l.cur.Index, d, len(l.States), l.nFrames, l.Generations, wsz, l.PageSize)
 	}
 	return nil
 }
